@@ -65,9 +65,12 @@ fn fail(what: String) -> ! {
 fn main() {
     let dir = scratch_dir("bounded_window");
     let mut cases = 0u64;
+    // usage: bounded_window [read|write|all]   (C01 runs the read side, C02 the write side, C18 everything; the mixed histories run in every mode)
+    let mode = std::env::args().nth(1).unwrap_or_else(|| "all".to_string());
+    let (read_side, write_side) = (mode != "write", mode != "read");
     // ---- read side
     let path = dir.join("r.bin");
-    for flen in 0..=13usize {
+    for flen in if read_side { 0..=13usize } else { 1..=0 } {
         let data = content(flen);
         std::fs::write(&path, &data).unwrap();
         for chunk in [1usize, 2, 3, 4, 5, 8] {
@@ -111,7 +114,7 @@ fn main() {
     // ---- write side
     let path = dir.join("w.bin");
     let pieces: [&[u8]; 3] = [b"abc", b"", b"12345"];
-    for size in [1u16, 2, 3] {
+    for size in if write_side { vec![1u16, 2, 3] } else { vec![] } {
         for nops in 0..=6usize {
             for code in 0..4usize.pow(nops as u32) {
                 cases += 1;
@@ -196,7 +199,7 @@ fn main() {
         }
     }
     // ---- a write error is reported, not swallowed: a window over a device on which every write fails (disk full)
-    if let Ok(full) = std::fs::OpenOptions::new().write(true).open("/dev/full") {
+    if let (true, Ok(full)) = (write_side, std::fs::OpenOptions::new().write(true).open("/dev/full")) {
         for (size, pieces) in [(1u16, vec![8usize]), (3, vec![8, 8, 3]), (16, vec![512; 16]), (4, vec![4096; 4])] {
             cases += 1;
             let mut w = Window::new(size, 8, full.try_clone().unwrap());
